@@ -143,9 +143,9 @@ def state_fn(conf, hist, G, M):
 
 
 def run(tier, seed):
-    params = {'u1_depth': 2, 'u2_depth': 2, 'two_depth': 2, 'u3_depth': 1} if tier == 'quick' else {'u1_depth': 3}
+    params = {'u1_depth': 2, 'u2_depth': 2, 'two_depth': 2, 'u3_depth': 1} if tier == 'quick' else {'u1_depth': 4, 'u2_depth': 2, 'two_depth': 3, 'u3_depth': 2, 'uc_depth': 5}
     return base.run_state_property(
-        PROP, LEVEL, state_fn, tier, seed, opfilter=(lambda op: op[0] != 'nodes2'), which=base.NO_LONG, reduced=base.REDUCED_LIGHT, params=params, flavours=(0, 1, 2),
+        PROP, LEVEL, state_fn, tier, seed, thorough_full=(0, 1), opfilter=(lambda op: op[0] != 'nodes2'), which=base.NO_LONG, reduced=base.REDUCED_LIGHT, params=params, flavours=(0, 1, 2),
         vacuity={'states_reciprocal': 10, 'states_isolated_node': 10, 'states_with_attrs': 10, 'states_selfloop': 10},
         sample_fn=base.default_samples,
         assumptions=['JSON-native ids (int, str) only; graph attribute G.graph["meta"] is set by the harness on the fresh replayed object'],
